@@ -226,8 +226,9 @@ def run_impl(ctx, histories: List[List[dict]], obs_mode: str = 'all', world: Opt
     return ctx.run_impl(os.path.join(core.VERIF, 'harness', 'batchdb', 'runner.py'), payload, timeout=timeout)
 
 
-def run_model(ctx, histories: List[List[dict]], world: Optional[dict] = None, shard: int = 25):
-    """Returns per history: (list of per-model-op (res, obs) , indices of the ops that the model executed, interner)."""
+def run_model(ctx, histories: List[List[dict]], world: Optional[dict] = None, shard: int = 25, fn: str = 'obs_trace'):
+    """Returns per history: (list of per-model-op (res, obs) , indices of the ops that the model executed, interner).
+    With fn='hash_trace' the obs component is the fingerprint Obs.hobs instead of the 15 tables."""
     world = world or DEFAULT_WORLD
     exprs, metas = [], []
     for h in histories:
@@ -241,25 +242,68 @@ def run_model(ctx, histories: List[List[dict]], world: Optional[dict] = None, sh
             if t is not None:
                 terms.append('(' + t + ')')
                 idx.append(i)
-        exprs.append('obs_trace [' + '; '.join(terms) + ']')
+        exprs.append(fn + ' [' + '; '.join(terms) + ']')
         metas.append((idx, it))
-    vals = core.coq_eval(ctx, HEADER, exprs, shard=shard, label='batchdb')
+    shard = max(2, min(shard, -(-len(exprs) // 14)))     # one shard per core: a history costs about a second of vm_compute
+    # balance the shards: deal the histories, longest first, round-robin over the K shards
+    K = -(-len(exprs) // shard)
+    order = sorted(range(len(exprs)), key=lambda i: -len(exprs[i]))
+    buckets = [order[k::K] for k in range(K)]
+    shard = max(len(b) for b in buckets) if buckets else shard
+    perm = []
+    for b in buckets:
+        perm += b + [None] * (shard - len(b))
+    pexprs = [exprs[i] if i is not None else 'hash_trace []' for i in perm]
+    pvals = core.coq_eval(ctx, HEADER, pexprs, shard=shard, label='batchdb' + ('h' if fn == 'hash_trace' else ''))
+    vals = [None] * len(exprs)
+    for i, v in zip(perm, pvals):
+        if i is not None:
+            vals[i] = v
     return [(v, idx, it) for v, (idx, it) in zip(vals, metas)]
+
+
+HM = 2305843009213693951
+
+
+def fingerprint(canon: Dict[str, List[Tuple[int, ...]]]) -> int:
+    """Python twin of Obs.hobs (order-independent within a table)."""
+    total = 0
+    for ti, t in enumerate(TABLES, start=1):
+        ht = 0
+        for r in canon[t]:
+            acc = ti + 1
+            for x in r:
+                acc = (acc * 1000003 + (x + 7)) % HM
+            ht = (ht + acc) % HM
+        total = (total + ht) % HM
+    return total
 
 
 def compare(ctx, histories: List[List[dict]], world: Optional[dict] = None, name: str = 'BatchDB.Model.step~real SQL+handlers on minisql', impl=None):
     """Full correspondence on the given histories. Returns (Corr, impl_results)."""
     if impl is None:
         impl = run_impl(ctx, histories, 'all', world)
-    model = run_model(ctx, histories, world)
+    # pass 1: result class + fingerprint of the whole projection after every op; pass 2 (only for histories whose
+    # fingerprints or results differ): the full 15 tables, for the diagnostic
+    model_h = run_model(ctx, histories, world, shard=60, fn='hash_trace')
     dis: List[Disagreement] = []
     n_ops = 0
-    for h, ires, (mres, idx, it) in zip(histories, impl['results'], model):
-        prev_obs = None
-        bad = False
+    suspects = []
+    for hi, (h, ires, (mres, idx, it)) in enumerate(zip(histories, impl['results'], model_h)):
         for mi, i in enumerate(idx):
             op = h[i]
             n_ops += 1
+            r_i = canon_impl_result(op, ires[i]['result'])
+            r_m = canon_model_result(op, (mres[mi][0], mres[mi][1]))
+            if r_i != r_m or fingerprint(canon_impl_obs(ires[i]['obs'], it)) != int(mres[mi][2]):
+                suspects.append(hi)
+                break
+    model = run_model(ctx, [histories[hi] for hi in suspects], world) if suspects else []
+    for hi, (mres, idx, it) in zip(suspects, model):
+        h, ires = histories[hi], impl['results'][hi]
+        found = False
+        for mi, i in enumerate(idx):
+            op = h[i]
             r_i = canon_impl_result(op, ires[i]['result'])
             # Coq prints ((cls, payload), obs) as a flat triple
             r_m = canon_model_result(op, (mres[mi][0], mres[mi][1]))
@@ -271,8 +315,10 @@ def compare(ctx, histories: List[List[dict]], world: Optional[dict] = None, name
                                        'model_only': [list(r) for r in o_m[t] if r not in o_i[t]][:8]}
                                    for t in TABLES if o_i[t] != o_m[t]}}
                 dis.append(Disagreement(name, {'history': h[:i + 1]}, diff.get('tables'), diff))
-                bad = True
+                found = True
                 break
+        if not found:   # fingerprints differ but tables agree: the two fingerprint implementations have diverged
+            dis.append(Disagreement(name, {'history': h}, None, {'note': 'fingerprint mismatch without table mismatch (Obs.hobs vs corr.fingerprint)'}))
         # read-only ops must not change the implementation's database either
     corr = Corr(evaluations=len(histories), distinct_nontrivial=len({json.dumps(h, sort_keys=True) for h in histories if len(h) >= 5}),
                 rule='histories of batch-service ops (INTERFACE.md); non-trivial = at least 5 ops; after every op the result class and the '
